@@ -179,6 +179,15 @@ Let lam (s : R) : R := lon_i lon s.
 Let x (s : R) : R := lla_to_ecef_r0 lat (lam s) alt.
 Let y (s : R) : R := lla_to_ecef_r1 lat (lam s) alt.
 Let z (s : R) : R := lla_to_ecef_r2 lat (lam s) alt.
+Let M00 (s : R) : R := mat_en_from_ll_m00 lat (lam s).
+Let M01 (s : R) : R := mat_en_from_ll_m01 lat (lam s).
+Let M02 (s : R) : R := mat_en_from_ll_m02 lat (lam s).
+Let M10 (s : R) : R := mat_en_from_ll_m10 lat (lam s).
+Let M11 (s : R) : R := mat_en_from_ll_m11 lat (lam s).
+Let M12 (s : R) : R := mat_en_from_ll_m12 lat (lam s).
+Let M20 (s : R) : R := mat_en_from_ll_m20 lat (lam s).
+Let M21 (s : R) : R := mat_en_from_ll_m21 lat (lam s).
+Let M22 (s : R) : R := mat_en_from_ll_m22 lat (lam s).
 
 Lemma rest_velocity t :
   is_derive x t (- RATE_ * y t) /\ is_derive y t (RATE_ * x t) /\ is_derive z t 0.
@@ -213,18 +222,12 @@ Qed.
 
 (** the inertially referenced NED frame of the resting body turns with Earth rate: d/dt C = [Omega x] C *)
 Lemma rest_frame_derive t :
-  is_derive (fun s => mat_en_from_ll_m00 lat (lam s)) t (- RATE_ * mat_en_from_ll_m10 lat (lam t)) /\
-  is_derive (fun s => mat_en_from_ll_m01 lat (lam s)) t (- RATE_ * mat_en_from_ll_m11 lat (lam t)) /\
-  is_derive (fun s => mat_en_from_ll_m02 lat (lam s)) t (- RATE_ * mat_en_from_ll_m12 lat (lam t)) /\
-  is_derive (fun s => mat_en_from_ll_m10 lat (lam s)) t (RATE_ * mat_en_from_ll_m00 lat (lam t)) /\
-  is_derive (fun s => mat_en_from_ll_m11 lat (lam s)) t (RATE_ * mat_en_from_ll_m01 lat (lam t)) /\
-  is_derive (fun s => mat_en_from_ll_m12 lat (lam s)) t (RATE_ * mat_en_from_ll_m02 lat (lam t)) /\
-  is_derive (fun s => mat_en_from_ll_m20 lat (lam s)) t 0 /\
-  is_derive (fun s => mat_en_from_ll_m21 lat (lam s)) t 0 /\
-  is_derive (fun s => mat_en_from_ll_m22 lat (lam s)) t 0.
+  is_derive M00 t (- RATE_ * M10 t) /\ is_derive M01 t (- RATE_ * M11 t) /\ is_derive M02 t (- RATE_ * M12 t) /\
+  is_derive M10 t (RATE_ * M00 t) /\ is_derive M11 t (RATE_ * M01 t) /\ is_derive M12 t (RATE_ * M02 t) /\
+  is_derive M20 t 0 /\ is_derive M21 t 0 /\ is_derive M22 t 0.
 Proof.
-  subst lam. unfold lon_i. unf_en.
-  repeat (match goal with |- _ /\ _ => split end); (auto_derive; [auto|]); field; apply PI_neq0.
+  subst M00 M01 M02 M10 M11 M12 M20 M21 M22 lam. unfold lon_i. unf_en.
+  split_all; (auto_derive; [auto|]); field; apply PI_neq0.
 Qed.
 
 Lemma rest_specific_force t :
@@ -232,9 +235,9 @@ Lemma rest_specific_force t :
   let fx := Derive_n x 2 t - gravitation_ecef_g0 lat (lam t) alt in
   let fy := Derive_n y 2 t - gravitation_ecef_g1 lat (lam t) alt in
   let fz := Derive_n z 2 t - gravitation_ecef_g2 lat (lam t) alt in
-  mat_en_from_ll_m00 lat (lam t) * fx + mat_en_from_ll_m10 lat (lam t) * fy + mat_en_from_ll_m20 lat (lam t) * fz = 0 /\
-  mat_en_from_ll_m01 lat (lam t) * fx + mat_en_from_ll_m11 lat (lam t) * fy + mat_en_from_ll_m21 lat (lam t) * fz = 0 /\
-  mat_en_from_ll_m02 lat (lam t) * fx + mat_en_from_ll_m12 lat (lam t) * fy + mat_en_from_ll_m22 lat (lam t) * fz
+  M00 t * fx + M10 t * fy + M20 t * fz = 0 /\
+  M01 t * fx + M11 t * fy + M21 t * fz = 0 /\
+  M02 t * fx + M12 t * fy + M22 t * fz
     = - gravity_g lat alt.
 Proof.
   intros Hlat. cbv zeta.
@@ -244,7 +247,7 @@ Proof.
   rewrite G0, G1, G2. unfold centrifugal_x, centrifugal_y, centrifugal_z.
   fold (x t) (y t) (z t).
   generalize (gravity_g lat alt) (x t) (y t) (z t). intros g X Y Z.
-  unf_en. rewrite !cos_m90, !sin_m90.
+  subst M00 M01 M02 M10 M11 M12 M20 M21 M22. cbv beta. unf_en. rewrite !cos_m90, !sin_m90.
   set (phi := lat * (PI / 180)). set (l := lam t * (PI / 180)).
   assert (Hp : sin phi * sin phi = 1 - cos phi * cos phi) by (pose proof (sc1 phi); lra).
   assert (Hl : sin l * sin l = 1 - cos l * cos l) by (pose proof (sc1 l); lra).
@@ -253,11 +256,7 @@ Qed.
 
 (** the inertially referenced NED frame of the resting body turns with rate_n(lat), resolved in NED *)
 Lemma rest_frame_rate t :
-  body_rate_of (fun s => mat_en_from_ll_m00 lat (lam s)) (fun s => mat_en_from_ll_m01 lat (lam s))
-               (fun s => mat_en_from_ll_m02 lat (lam s)) (fun s => mat_en_from_ll_m10 lat (lam s))
-               (fun s => mat_en_from_ll_m11 lat (lam s)) (fun s => mat_en_from_ll_m12 lat (lam s))
-               (fun s => mat_en_from_ll_m20 lat (lam s)) (fun s => mat_en_from_ll_m21 lat (lam s))
-               (fun s => mat_en_from_ll_m22 lat (lam s)) t (rate_n_w0 lat) (rate_n_w1 lat) (rate_n_w2 lat).
+  body_rate_of M00 M01 M02 M10 M11 M12 M20 M21 M22 t (rate_n_w0 lat) (rate_n_w1 lat) (rate_n_w2 lat).
 Proof.
   destruct (rest_frame_derive t) as [D00 [D01 [D02 [D10 [D11 [D12 [D20 [D21 D22]]]]]]]].
   unfold body_rate_of. split.
@@ -265,6 +264,7 @@ Proof.
   - rewrite (is_derive_unique _ _ _ D00), (is_derive_unique _ _ _ D01), (is_derive_unique _ _ _ D02),
       (is_derive_unique _ _ _ D10), (is_derive_unique _ _ _ D11), (is_derive_unique _ _ _ D12),
       (is_derive_unique _ _ _ D20), (is_derive_unique _ _ _ D21), (is_derive_unique _ _ _ D22).
+    subst M00 M01 M02 M10 M11 M12 M20 M21 M22. cbv beta.
     unf_rate. unf_en. rewrite !cos_m90, !sin_m90. unfold RATE_.
     set (phi := lat * (PI / 180)). set (l := lam t * (PI / 180)).
     assert (Hp : sin phi * sin phi = 1 - cos phi * cos phi) by (pose proof (sc1 phi); lra).
@@ -279,15 +279,15 @@ Let R02 := mat_from_rph_m02 roll pitch heading. Let R10 := mat_from_rph_m10 roll
 Let R11 := mat_from_rph_m11 roll pitch heading. Let R12 := mat_from_rph_m12 roll pitch heading.
 Let R20 := mat_from_rph_m20 roll pitch heading. Let R21 := mat_from_rph_m21 roll pitch heading.
 Let R22 := mat_from_rph_m22 roll pitch heading.
-Let B00 s := dot3 (mat_en_from_ll_m00 lat (lam s)) (mat_en_from_ll_m01 lat (lam s)) (mat_en_from_ll_m02 lat (lam s)) R00 R10 R20.
-Let B01 s := dot3 (mat_en_from_ll_m00 lat (lam s)) (mat_en_from_ll_m01 lat (lam s)) (mat_en_from_ll_m02 lat (lam s)) R01 R11 R21.
-Let B02 s := dot3 (mat_en_from_ll_m00 lat (lam s)) (mat_en_from_ll_m01 lat (lam s)) (mat_en_from_ll_m02 lat (lam s)) R02 R12 R22.
-Let B10 s := dot3 (mat_en_from_ll_m10 lat (lam s)) (mat_en_from_ll_m11 lat (lam s)) (mat_en_from_ll_m12 lat (lam s)) R00 R10 R20.
-Let B11 s := dot3 (mat_en_from_ll_m10 lat (lam s)) (mat_en_from_ll_m11 lat (lam s)) (mat_en_from_ll_m12 lat (lam s)) R01 R11 R21.
-Let B12 s := dot3 (mat_en_from_ll_m10 lat (lam s)) (mat_en_from_ll_m11 lat (lam s)) (mat_en_from_ll_m12 lat (lam s)) R02 R12 R22.
-Let B20 s := dot3 (mat_en_from_ll_m20 lat (lam s)) (mat_en_from_ll_m21 lat (lam s)) (mat_en_from_ll_m22 lat (lam s)) R00 R10 R20.
-Let B21 s := dot3 (mat_en_from_ll_m20 lat (lam s)) (mat_en_from_ll_m21 lat (lam s)) (mat_en_from_ll_m22 lat (lam s)) R01 R11 R21.
-Let B22 s := dot3 (mat_en_from_ll_m20 lat (lam s)) (mat_en_from_ll_m21 lat (lam s)) (mat_en_from_ll_m22 lat (lam s)) R02 R12 R22.
+Let B00 s := dot3 (M00 s) (M01 s) (M02 s) R00 R10 R20.
+Let B01 s := dot3 (M00 s) (M01 s) (M02 s) R01 R11 R21.
+Let B02 s := dot3 (M00 s) (M01 s) (M02 s) R02 R12 R22.
+Let B10 s := dot3 (M10 s) (M11 s) (M12 s) R00 R10 R20.
+Let B11 s := dot3 (M10 s) (M11 s) (M12 s) R01 R11 R21.
+Let B12 s := dot3 (M10 s) (M11 s) (M12 s) R02 R12 R22.
+Let B20 s := dot3 (M20 s) (M21 s) (M22 s) R00 R10 R20.
+Let B21 s := dot3 (M20 s) (M21 s) (M22 s) R01 R11 R21.
+Let B22 s := dot3 (M20 s) (M21 s) (M22 s) R02 R12 R22.
 
 Lemma rest_body_derive t :
   is_derive B00 t (- RATE_ * B10 t) /\ is_derive B01 t (- RATE_ * B11 t) /\ is_derive B02 t (- RATE_ * B12 t) /\
@@ -296,7 +296,7 @@ Lemma rest_body_derive t :
 Proof.
   subst B00 B01 B02 B10 B11 B12 B20 B21 B22. cbv beta.
   generalize R00 R01 R02 R10 R11 R12 R20 R21 R22. intros r00 r01 r02 r10 r11 r12 r20 r21 r22.
-  subst lam. unfold dot3, lon_i. unf_en.
+  subst M00 M01 M02 M10 M11 M12 M20 M21 M22 lam. unfold dot3, lon_i. unf_en.
   split_all; (auto_derive; [auto|]); field; apply PI_neq0.
 Qed.
 
@@ -314,6 +314,7 @@ Proof.
       (is_derive_unique _ _ _ D10), (is_derive_unique _ _ _ D11), (is_derive_unique _ _ _ D12),
       (is_derive_unique _ _ _ D20), (is_derive_unique _ _ _ D21), (is_derive_unique _ _ _ D22).
     subst B00 B01 B02 B10 B11 B12 B20 B21 B22 R00 R01 R02 R10 R11 R12 R20 R21 R22. cbv beta.
+    subst M00 M01 M02 M10 M11 M12 M20 M21 M22. cbv beta.
     unfold dot3. unf_rate. unf_en. unf_rph. rewrite !cos_m90, !sin_m90. unfold RATE_.
     set (phi := lat * (PI / 180)). set (l := lam t * (PI / 180)).
     set (ro := roll * (PI / 180)). set (pi := pitch * (PI / 180)). set (he := heading * (PI / 180)).
@@ -344,17 +345,17 @@ Proof.
   subst B00 B01 B02 B10 B11 B12 B20 B21 B22. cbv beta. unfold dot3.
   generalize R00 R01 R02 R10 R11 R12 R20 R21 R22. intros r00 r01 r02 r10 r11 r12 r20 r21 r22.
   split_all.
-  - transitivity (r00 * (mat_en_from_ll_m00 lat (lam t) * fx + mat_en_from_ll_m10 lat (lam t) * fy + mat_en_from_ll_m20 lat (lam t) * fz)
-                + r10 * (mat_en_from_ll_m01 lat (lam t) * fx + mat_en_from_ll_m11 lat (lam t) * fy + mat_en_from_ll_m21 lat (lam t) * fz)
-                + r20 * (mat_en_from_ll_m02 lat (lam t) * fx + mat_en_from_ll_m12 lat (lam t) * fy + mat_en_from_ll_m22 lat (lam t) * fz)); [ring|].
+  - transitivity (r00 * (M00 t * fx + M10 t * fy + M20 t * fz)
+                + r10 * (M01 t * fx + M11 t * fy + M21 t * fz)
+                + r20 * (M02 t * fx + M12 t * fy + M22 t * fz)); [ring|].
     rewrite E0, E1, E2. ring.
-  - transitivity (r01 * (mat_en_from_ll_m00 lat (lam t) * fx + mat_en_from_ll_m10 lat (lam t) * fy + mat_en_from_ll_m20 lat (lam t) * fz)
-                + r11 * (mat_en_from_ll_m01 lat (lam t) * fx + mat_en_from_ll_m11 lat (lam t) * fy + mat_en_from_ll_m21 lat (lam t) * fz)
-                + r21 * (mat_en_from_ll_m02 lat (lam t) * fx + mat_en_from_ll_m12 lat (lam t) * fy + mat_en_from_ll_m22 lat (lam t) * fz)); [ring|].
+  - transitivity (r01 * (M00 t * fx + M10 t * fy + M20 t * fz)
+                + r11 * (M01 t * fx + M11 t * fy + M21 t * fz)
+                + r21 * (M02 t * fx + M12 t * fy + M22 t * fz)); [ring|].
     rewrite E0, E1, E2. ring.
-  - transitivity (r02 * (mat_en_from_ll_m00 lat (lam t) * fx + mat_en_from_ll_m10 lat (lam t) * fy + mat_en_from_ll_m20 lat (lam t) * fz)
-                + r12 * (mat_en_from_ll_m01 lat (lam t) * fx + mat_en_from_ll_m11 lat (lam t) * fy + mat_en_from_ll_m21 lat (lam t) * fz)
-                + r22 * (mat_en_from_ll_m02 lat (lam t) * fx + mat_en_from_ll_m12 lat (lam t) * fy + mat_en_from_ll_m22 lat (lam t) * fz)); [ring|].
+  - transitivity (r02 * (M00 t * fx + M10 t * fy + M20 t * fz)
+                + r12 * (M01 t * fx + M11 t * fy + M21 t * fz)
+                + r22 * (M02 t * fx + M12 t * fy + M22 t * fz)); [ring|].
     rewrite E0, E1, E2. ring.
 Qed.
 End AtRest.
